@@ -20,6 +20,17 @@ var strT = &ctype{kind: "scalar", scalar: "SVarchar"}
 
 func coqStr(s string) string { return "\"" + strings.ReplaceAll(s, "\"", "\"\"") + "\"%string" }
 
+// gIfaceOf: interface{} itself, a defined interface type without methods, an interface type with methods
+func gIfaceOf(rt reflect.Type) string {
+	switch {
+	case rt == tIface:
+		return "GIface"
+	case rt.NumMethod() == 0:
+		return "(GIfaceN false)"
+	}
+	return "(GIfaceN true)"
+}
+
 func gtyOf(t *ctype, rt reflect.Type) (string, bool) {
 	if isBigPtr(rt) && t.kind == "scalar" {
 		return "(GPtr (GLeaf " + t.scalar + " LVal))", true
@@ -29,7 +40,7 @@ func gtyOf(t *ctype, rt reflect.Type) (string, bool) {
 		s, ok := gtyOf(t, rt.Elem())
 		return "(GPtr " + s + ")", ok
 	case reflect.Interface:
-		return "GIface", true
+		return gIfaceOf(rt), true
 	}
 	switch t.kind {
 	case "scalar":
@@ -59,7 +70,7 @@ func gtyOf(t *ctype, rt reflect.Type) (string, bool) {
 			var s string
 			ok := true
 			if rt.Elem().Kind() == reflect.Interface {
-				s = "GIface"
+				s = gIfaceOf(rt.Elem())
 			} else if len(t.fields) > 0 {
 				s, ok = gtyOf(t.fields[0], rt.Elem())
 				for _, f := range t.fields[1:] {
@@ -92,7 +103,7 @@ func gtyOf(t *ctype, rt reflect.Type) (string, bool) {
 		case reflect.Map:
 			if t.kind == "udt" && rt.Key().Kind() == reflect.String {
 				if rt.Elem().Kind() == reflect.Interface {
-					return "(GMap (GLeaf SVarchar LVal) GIface)", true
+					return "(GMap (GLeaf SVarchar LVal) " + gIfaceOf(rt.Elem()) + ")", true
 				}
 				ok := len(t.fields) > 0
 				var s string
@@ -110,7 +121,9 @@ func gtyOf(t *ctype, rt reflect.Type) (string, bool) {
 	return "", false
 }
 
-// fieldCtype: the CQL type a struct field stands for (tuple: by index; udt: by name as locateFieldByName would find it)
+// fieldCtype: the CQL type a struct field stands for (tuple: by index; udt: the CQL field this struct field is found under by the documented
+// rule - by its tag when it has one, else by its name). A field that stands for no CQL field (never read, never written) is printed with the
+// scalar type matching its Go type.
 func fieldCtype(t *ctype, f reflect.StructField, i int) *ctype {
 	if t.kind == "tuple" {
 		if i < len(t.fields) {
@@ -118,13 +131,22 @@ func fieldCtype(t *ctype, f reflect.StructField, i int) *ctype {
 		}
 		return nil
 	}
+	tag := f.Tag.Get("cassandra")
 	for j, n := range t.names {
-		if strings.EqualFold(n, f.Name) || f.Tag.Get("cassandra") == n {
+		if (tag != "" && tag == n) || (tag == "" && strings.EqualFold(n, f.Name)) {
 			return t.fields[j]
 		}
 	}
+	if f.Type.Kind() == reflect.Int32 {
+		return scalarT("SInt")
+	}
 	return nil
 }
+
+const outsideUniverse = "GV_OUTSIDE_THE_MODELLED_UNIVERSE"
+
+// inUniverse: the printed value contains no dynamic type outside the universe of coq/model/CqlGoVal.v
+func inUniverse(g string) bool { return !strings.Contains(g, outsideUniverse) }
 
 func gvalOf(t *ctype, rt reflect.Type, v reflect.Value) string {
 	if isBigPtr(rt) && t.kind == "scalar" {
@@ -143,7 +165,10 @@ func gvalOf(t *ctype, rt reflect.Type, v reflect.Value) string {
 		if v.IsNil() {
 			return "GVNilIface"
 		}
-		dt, _ := gtyOf(t, v.Elem().Type())
+		dt, ok := gtyOf(t, v.Elem().Type())
+		if !ok {
+			return outsideUniverse // the dynamic type (e.g. a struct used as a CQL map) is not modelled
+		}
 		return "(GVIface " + dt + " " + gvalOf(t, v.Elem().Type(), v.Elem()) + ")"
 	}
 	switch t.kind {
@@ -349,7 +374,9 @@ func cmdReuse(n int) {
 			rec := &reuseRec{Kind: "reuse", Id: fmt.Sprintf("r%d", id), Ver: int(ver), TypeCql: t.dt.AsCql(), TypeCoq: t.coq(), Rep: r.String(), Gty: gty,
 				Input: in, ValCoq: a.canon().coq(), PrefillAbs: p.canon().coq()}
 			if gty != "" {
-				rec.Prefill = gvalOf(t, r.gt, dest.Elem())
+				if rec.Prefill = gvalOf(t, r.gt, dest.Elem()); !inUniverse(rec.Prefill) {
+					rec.Gty, rec.Prefill = "", ""
+				}
 			}
 			id++
 			var src []byte
@@ -371,8 +398,10 @@ func cmdReuse(n int) {
 				rec.Class, rec.Err = "err", derr.Error()
 			} else {
 				rec.Class, rec.WasNull = "ok", wn
-				if gty != "" {
-					rec.Result = gvalOf(t, r.gt, dest.Elem())
+				if rec.Gty != "" {
+					if rec.Result = gvalOf(t, r.gt, dest.Elem()); !inUniverse(rec.Result) {
+						rec.Gty, rec.Result = "", ""
+					}
 				}
 				d := abs(t, dest.Elem())
 				rec.ResAbs = d.canon().coq()
